@@ -18,6 +18,12 @@ PROPS: dict[str, dict] = {
         "assumptions": ["leaf relations declare truthful row bounds", "laws of tier L (spec/laws.py)"],
         "explanation": "Diagnostics.run: doomed implies no rows; with a truthful executor doomed iff no rows; doomed verdicts carry a message",
     },
+    "C19": {
+        "modules": ["names"],
+        "assumptions": ["uuid.uuid4() returns a value never issued before (probabilistic in reality: collision probability 2^-122); .hex has 32 characters",
+                        "thread interleavings are not explored: the postcondition of a call depends only on that call's own uuid, not on the shared counter, so it holds under every schedule"],
+        "explanation": "name = prefix ... hex(this call's uuid4); names with different 32-character suffixes differ",
+    },
     "C05": {
         "modules": ["op_slice"],
         "assumptions": [],
@@ -45,5 +51,11 @@ PROPS["C16"].update(
                "is_empty_invariant of every operation class is proved sound.",
     level_note=_COMMON_NOTE + "Assumed: truthful leaf bounds; tier-L laws; executor modelled as an uninterpreted boolean function of the relation.",
 )
-CLAIMED = {"C06", "C13", "C16"}
+PROPS["C19"].update(
+    level_text="get_relation_name is proved (exact model of its f-string, z3 strings) to return a name that starts with the prefix and ends with the 32-character hex of the uuid drawn by that very call; "
+               "LeafRelation.__post_init__ is proved to keep an explicit name and otherwise store exactly such a generated name; the lemma 'different 32-character suffixes give different names' is discharged by the string solver. "
+               "Uniqueness over every history and interleaving follows because no postcondition depends on the shared counter.",
+    level_note=_COMMON_NOTE + "Assumed: uuid4 freshness (an assumed contract on an external function); schedules are not explored, the argument is independence from shared state.",
+)
+CLAIMED = {"C06", "C13", "C16", "C19"}
 NOT_CLAIMED: dict[str, str] = {}
